@@ -268,3 +268,9 @@ def parse(toks, **kw):
     p = P(toks, **kw)
     r = p.code()
     return r
+
+
+def parse_text(src):
+    """the tree the published grammar derives from a source text (frozen reference lexer + parser); raises Rej / LexError"""
+    from sqv.spec import reflex
+    return parse([(t.kind, t.value) for t in reflex.lex(src)])
